@@ -1785,6 +1785,81 @@ pub fn cases(prop: &str, t: Tier, seed: u64) -> Vec<Case> {
             }
             huff_profile_cases(r, t, "hqwt", &["rank_prefetch", "rank"], &[], &mut out);
             prefetch_api_cases(r, scale(t, 8, 40), &mut out);
+            // period-aligned counts: every symbol occurs 2048·k + {-1, 0, 1} times (sorted blocks, runs, or
+            // shuffled), so that node boundaries and partial ranks sit on / next to the prefetch sampling period at
+            // every level — where the estimate is allowed to be off by one per level (Props/C09: approx_rank_ok)
+            for i in 0..scale(t, 24, 160) {
+                let fam = if i % 2 == 0 { "hqwt" } else { "qwt" };
+                let cfg = QWT_CFGS[(i / 2) % 4];
+                let ty = TYS[i % 3];
+                let alph = *r.pick(&[2usize, 3, 4, 5, 7, 9, 16, 17, 34]);
+                let mut syms: Vec<u128> = vec![];
+                while syms.len() < alph {
+                    let sy = r.below(if ty.1 == 8 { 256 } else { 900 }) as u128;
+                    if !syms.contains(&sy) {
+                        syms.push(sy);
+                    }
+                }
+                let mut v: Vec<u128> = vec![];
+                let mut bounds: Vec<usize> = vec![];
+                for (j, &sy) in syms.iter().enumerate() {
+                    let k = if j < 3 { r.range(1, 3) } else { r.range(0, 1) } as usize;
+                    let cnt = (2048 * k + [0usize, 0, 1, 1][r.below(4) as usize]).saturating_sub([0usize, 1, 0, 0][r.below(4) as usize]).max(1);
+                    for _ in 0..cnt {
+                        v.push(sy);
+                    }
+                    bounds.push(v.len());
+                }
+                match i % 3 {
+                    0 => {}
+                    1 => {
+                        // exchange a few elements across block boundaries (first element of a node changes)
+                        for &b in &bounds {
+                            if b > 0 && b < v.len() {
+                                v.swap(b - 1, b);
+                            }
+                        }
+                    }
+                    _ => {
+                        for k in (1..v.len()).rev() {
+                            let j = r.below(k as u64 + 1) as usize;
+                            v.swap(k, j);
+                        }
+                    }
+                }
+                let n = v.len();
+                let mut c = Case::new(fam);
+                c.tag(format!("fam={}", fam));
+                c.tag(format!("cfg={}{}", cfg.0, if cfg.1 { "pfs" } else { "" }));
+                c.tag("aligned-counts");
+                c.nontrivial = true;
+                c.l(format!("cfg {} {} {} * {}", cfg.0, cfg.1 as u8, ty.1, ty.0));
+                if fam == "hqwt" {
+                    c.l(format!("tie {}", r.next() | 1));
+                }
+                c.l(format!("mk 0 {} {}", fam, join(&v)));
+                if fam == "hqwt" {
+                    c.l("lenschk 0");
+                }
+                let mut poss: Vec<usize> = vec![0, 1, n - 1, n, n + 1];
+                for &b in &bounds {
+                    for d in [0usize, 1, 2] {
+                        poss.push(b.saturating_sub(d));
+                        poss.push((b + d).min(n));
+                    }
+                }
+                for m in (2048..=n).step_by(2048) {
+                    poss.extend([m - 1, m, (m + 1).min(n)]);
+                }
+                poss.sort();
+                poss.dedup();
+                for &sy in &syms {
+                    for &p in &poss {
+                        c.l(format!("q 0 rank_prefetch {} {}", sy, p));
+                    }
+                }
+                out.push(c);
+            }
         }
         "C10" => {
             tree_family_cases(r, t, "qwt", &["get_unchecked", "rank_unchecked", "select_unchecked", "rank_prefetch_unchecked", "get", "rank", "select"], &[], scale(t, 24, 160), &mut out);
